@@ -1024,10 +1024,14 @@ class Interp:
         raise OutOfReach("`in` on %r" % (container,))
 
     def seq_contains_eq(self, seq, t):
-        """Membership by identity (sound for containers of objects compared by identity or of
-        interned literals; `==`-based membership on symbolic values is modelled by the contract
-        layer where it matters, A-EQ)."""
-        return z3.Contains(seq, z3.Unit(t))
+        """`x in <list>`: True when some element is identical to x *or equal to it* (`==`).  Modelled
+        by the uninterpreted mem_eq(seq, x) with the facts that hold for every `==`: an identical
+        element is a member, an empty list has no member.  (It is NOT identity membership: code
+        that de-duplicates with `in` instead of `is` is distinguished from the identity test.)"""
+        m = vm.mem_eq(seq, t)
+        self.U.axioms.append(z3.Implies(z3.Contains(seq, z3.Unit(t)), m))
+        self.U.axioms.append(z3.Implies(z3.Length(seq) == 0, z3.Not(m)))
+        return m
 
     def ex_BinOp(self, e, st, ctx):
         def cont(q, lr):
